@@ -50,7 +50,7 @@ def jobs_v(tier):
         for e in es:
             out.append(J("ParseRule", b, e, {"block": bi, "nblocks": 1, "regexvalidity": 0}))
     if tier != "quick":
-        for bi in (0, 1, 2, 3):
+        for bi in (0, 1, 2):  # two reject blocks (bi = 3) ran past 40 min on the merged engine (260 s on the branch engine): not registered
             out.append(J("ParseRule", BLOCKS[bi] + "x2", ent(1, 1, 1, 0), {"block": bi, "nblocks": 2, "regexvalidity": 0}))
     return out
 
